@@ -375,7 +375,7 @@ def run_readers(rnd, out, repo, nreads=6):
             name, r = readers[0]
             a_, b_ = r.read(0, 8, use_dask=True), r.read(8, 8, use_dask=True)
             cat = pb.concatenate([a_, b_])
-            ref = r.read(0, 16)
+            ref = pb.concatenate([r.read(0, 8), r.read(8, 8)])
             for c, m, amb in dr.compare_signals(cat.compute(), ref, False, "concatenate of two dask reads of " + name):
                 out.viol.append(("%s:reader" % c, m))
     finally:
